@@ -240,7 +240,7 @@ func Search(left, right *Equation) *Equation {
 func (e *Equation) Append(buf []byte, parens bool) []byte {
 	if e.o != nil {
 		switch e.o.code {
-		case not.code, length.code, count.code, match.code, search.code, group.code:
+		case not.code, length.code, count.code, match.code, search.code, group.code, userOpCode:
 			parens = false
 		}
 	}
@@ -273,6 +273,19 @@ func (e *Equation) Append(buf []byte, parens bool) []byte {
 			buf = e.left.Append(buf, false)
 			buf = append(buf, ',', ' ')
 			buf = e.right.Append(buf, false)
+			buf = append(buf, ')')
+		case userOpCode:
+			// A registered function is written as a call, like match and
+			// search, that is the only form the parser reads.
+			buf = append(buf, e.o.name...)
+			buf = append(buf, '(')
+			if e.left != nil {
+				buf = e.left.Append(buf, false)
+			}
+			if 1 < e.o.cnt && e.right != nil {
+				buf = append(buf, ',', ' ')
+				buf = e.right.Append(buf, false)
+			}
 			buf = append(buf, ')')
 		case group.code:
 			if e.left != nil {
